@@ -8,6 +8,87 @@ import (
 
 func init() {
 	Register("C02", checkC02)
+	Register("C03", checkC03)
+	Register("C06", checkC06)
+}
+
+var parserHarness = []string{"genparser/common.go", "genparser/c02.go", "genparser/c03.go"}
+
+func parseBound(n int) int { return 6*(n+1) + 4 }
+
+func checkC03(c *Ctx) {
+	maxN := 4
+	if !c.Quick() {
+		maxN = 6
+	}
+	var jobs []Job
+	for _, g := range SynCorpus {
+		ga := g.WithRecordingActions()
+		t, err := c.parserTarget(ga, true, parserHarness...)
+		if err != nil {
+			c.Inconclusive = append(c.Inconclusive, err.Error())
+			continue
+		}
+		for n := 0; n <= maxN; n++ {
+			jobs = append(jobs, Job{
+				Name:           fmt.Sprintf("tree %s N=%d", g.Name, n),
+				Target:         t,
+				Run:            SymRun{Harness: "VerifC03Tree", Params: map[string]int{"N": n}, LoopBound: 64, LoopBounds: map[string]int{"Parse": parseBound(n)}, ForkFuncs: []string{"Parse", "VerifC03Tree"}},
+				Bounds:         fmt.Sprintf("grammar %s with a recording action on every alternative; every sequence of %d terminal tokens; every choice of a failing action occurrence", g.Name, n),
+				RequiredCovers: []string{"end"},
+			})
+		}
+		// default actions: the copy without actions, one job per production
+		t0, err := c.parserTarget(g, false, parserHarness...)
+		if err != nil {
+			c.Inconclusive = append(c.Inconclusive, err.Error())
+			continue
+		}
+		for k := range g.Prods {
+			jobs = append(jobs, Job{
+				Name:   fmt.Sprintf("default-action %s prod=%d", g.Name, k+1),
+				Target: t0,
+				// production 0 of the generated table is the augmented S' : S
+				Run:    SymRun{Harness: "VerifC03Default", Params: map[string]int{"PROD": k + 1}, LoopBound: 16},
+				Bounds: fmt.Sprintf("generated reduce function of production %d of %s (no action written), arbitrary attribute objects", k+1, g.Name),
+			})
+		}
+	}
+	c.BoundsText = append(c.BoundsText, fmt.Sprintf("corpus grammars with recording actions, real $-substitution and productions table; all token sequences of length 0..%d; the trace of action calls must be the post-order evaluation of a derivation tree of the input (which is THE parse tree for a conflict-free grammar) with the scanner's token objects at the leaves; default actions checked on the generated reduce functions of the action-free copy", maxN))
+	c.RunJobs(filterJobs(jobs), 4)
+}
+
+// reduced grammars only (every nonterminal productive): the property's precondition
+var c06Grammars = map[string]bool{"G01": true, "G02": true, "G03": true, "G04": true, "G08": true}
+
+func checkC06(c *Ctx) {
+	maxN := 3
+	if !c.Quick() {
+		maxN = 5
+	}
+	var jobs []Job
+	for _, g := range SynCorpus {
+		if !c06Grammars[g.Name] {
+			continue
+		}
+		ga := g.WithRecordingActions()
+		t, err := c.parserTarget(ga, true, parserHarness...)
+		if err != nil {
+			c.Inconclusive = append(c.Inconclusive, err.Error())
+			continue
+		}
+		for n := 0; n <= maxN; n++ {
+			jobs = append(jobs, Job{
+				Name:           fmt.Sprintf("error-report %s N=%d", g.Name, n),
+				Target:         t,
+				Run:            SymRun{Harness: "VerifC06Error", Params: map[string]int{"N": n}, LoopBound: 64, LoopBounds: map[string]int{"Parse": parseBound(n)}, ForkFuncs: []string{"Parse", "VerifC06Error"}},
+				Bounds:         fmt.Sprintf("grammar %s, every sequence of %d terminal tokens", g.Name, n),
+				RequiredCovers: []string{},
+			})
+		}
+	}
+	c.BoundsText = append(c.BoundsText, fmt.Sprintf("reduced, error-free corpus grammars; all token sequences of length 0..%d; oracle: viable-prefix recogniser (CYK variant) over /verif's own grammar representation, evaluated for every prefix and every one-terminal extension", maxN))
+	c.RunJobs(filterJobs(jobs), 4)
 }
 
 // parserTarget generates the grammar and returns the parser package target with the harness
@@ -36,13 +117,10 @@ func checkC02(c *Ctx) {
 	}
 	var jobs []Job
 	for _, g := range SynCorpus {
-		t, err := c.parserTarget(g, false, "genparser/common.go", "genparser/c02.go", "genparser/dbg.go")
+		t, err := c.parserTarget(g, false, parserHarness...)
 		if err != nil {
 			c.Inconclusive = append(c.Inconclusive, err.Error())
 			continue
-		}
-		if os.Getenv("GV_DBG") != "" {
-			jobs = append(jobs, Job{Name: "dbg " + g.Name, Target: t, Run: SymRun{Harness: "VerifDbg", LoopBound: 64}})
 		}
 		for n := 0; n <= maxN; n++ {
 			jobs = append(jobs, Job{
